@@ -19,7 +19,7 @@ theorem tie_enum_actions : Facts.enumActions = ["@panic", "@error", "@ignore"] :
 
 /-- the kinds accepted by the mask: every integer kind (incl. uintptr), floats and string — not bool, complex, unsafe.Pointer -/
 theorem C08_kinds (k : Kind) :
-    k.enumOK = (k ∈ [Kind.int, .int8, .int16, .int32, .int64, .uint, .uint8, .uint16, .uint32, .uint64, .uintptr, .float32, .float64, .string]) := by
+    k.enumOK = (k ∈ [Kind.int, .int8, .int16, .int32, .int64, .uint, .uint8, .uint16, .uint32, .uint64, .uintptr, .float32, .float64, .string, .byte, .rune]) := by
   cases k <;> decide
 
 /-- **C08_detect**: a type is an enum iff it is a named type of a package, enum detection is enabled, it is not
